@@ -5,6 +5,7 @@ package main
 import (
 	"fmt"
 	"go/ast"
+	"go/token"
 	"go/types"
 	"sort"
 	"strings"
@@ -33,7 +34,8 @@ func c10(c *Ctx) {
 	c10R5(c)
 	c10R6(c)
 	c10R7(c)
-	ruleSandboxExited(c, "C10.R7")
+	ruleSandboxExited(c, "C10.R9")
+	c10R10(c)
 	ruleCASPublication(c, "C10.R8", "PodENI", map[string]string{
 		"Status.PodLastSeen": "a timestamp; the latest writer winning is the intent",
 		"Labels":             "node label follows the pod; no transition is decided on it",
@@ -554,4 +556,86 @@ func c10R7(c *Ctx) {
 		c.Check(name == "Update", "C10.R7", fn.Key()+": phase "+ps.to+" written with Update", p.Pos(next), fn.Key(), "Status().Update(ctx, obj)", "written with "+name)
 	}
 	c.Floor("C10.R7", "phase writes", 7, n)
+}
+
+// R10: what the cloud created is known to the roll-back, on failure too.
+// createENI records every successfully created interface in
+// podENI.Spec.Allocations (podCreate's deferred roll-back iterates exactly that
+// list). The recording is not conditional on the group's overall success: a
+// store in the function body after the group's Wait lies on every path to an
+// exit; a store in a collector goroutine is joined (a receive that every path
+// from Wait to an exit passes); a store in a worker of the group is joined by
+// Wait itself.
+func c10R10(c *Ctx) {
+	p := c.P
+	c.Rule("C10.R10", "createENI records every interface a worker created in podENI.Spec.Allocations whether or not a sibling worker failed: the recording store is reached (or its collector goroutine joined) on every path from the group's Wait to a return, so the roll-back sees all of them")
+	fn := p.Func(podCtlPkg, "ReconcilePod.createENI")
+	field := p.Field(modPath+"/"+apiPkg, "PodENISpec", "Allocations")
+	if fn == nil || field == nil {
+		c.Unres("C10.R10", "ReconcilePod.createENI / PodENISpec.Allocations", "not found")
+		return
+	}
+	info := fn.Info()
+	var wait *ast.CallExpr
+	for _, cs := range p.CallsIn(fn) {
+		if cs.Lit == nil && cs.Callee != nil && cs.Callee.Name() == "Wait" && cs.Callee.Pkg() != nil && strings.HasSuffix(cs.Callee.Pkg().Path(), "sync/errgroup") {
+			wait = cs.Call
+		}
+	}
+	if wait == nil {
+		c.Undec("C10.R10", "createENI: the workers are joined", p.Pos(fn.Decl), fn.Key(), "errgroup Wait in the function body", "no Wait call")
+		return
+	}
+	q := NewPathQuery(p, fn, nil)
+	n := 0
+	for _, st := range p.StoresTo([]*FuncInfo{fn}, field) {
+		if st.InLit {
+			continue
+		}
+		n++
+		if st.Lit == nil {
+			if st.Node.Pos() < wait.Pos() {
+				c.OK("C10.R10", "createENI: allocations recorded before the join", p.Pos(st.Node), fn.Key(), "store precedes Wait")
+				continue
+			}
+			w := q.Escapes(isExactly(wait), nil, isExactly(st.Node), nil)
+			c.Check(w == nil, "C10.R10", "createENI: allocations recorded on every path after the join", p.Pos(st.Node), fn.Key(),
+				"must-pass: g.Wait() → store to Spec.Allocations → return (a failed sibling does not skip it)", "path: "+p.describePath(w))
+			continue
+		}
+		// in a literal: a worker of the group (joined by Wait) or a collector goroutine (needs its own join)
+		isGo := false
+		ast.Inspect(fn.Decl.Body, func(k ast.Node) bool {
+			if g, ok := k.(*ast.GoStmt); ok && ast.Unparen(g.Call.Fun) == ast.Expr(st.Lit) {
+				isGo = true
+			}
+			return true
+		})
+		if !isGo {
+			c.OK("C10.R10", "createENI: allocations recorded by a worker of the group", p.Pos(st.Node), fn.Key(), "joined by Wait")
+			continue
+		}
+		recv := func(k ast.Node) bool {
+			found := false
+			ast.Inspect(k, func(m ast.Node) bool {
+				if _, isLit := m.(*ast.FuncLit); isLit {
+					return false
+				}
+				if u, ok := m.(*ast.UnaryExpr); ok && u.Op == token.ARROW {
+					found = true
+				}
+				if call, ok := m.(*ast.CallExpr); ok {
+					if f := Callee(info, call); f != nil && f.Name() == "Wait" && call != wait {
+						found = true
+					}
+				}
+				return !found
+			})
+			return found
+		}
+		w := q.Escapes(isExactly(wait), nil, recv, nil)
+		c.Check(w == nil, "C10.R10", "createENI: the collector goroutine is joined on every path after Wait", p.Pos(st.Node), fn.Key(),
+			"must-pass: g.Wait() → receive from the collector → return", "path: "+p.describePath(w))
+	}
+	c.Floor("C10.R10", "stores to Spec.Allocations in createENI", 1, n)
 }
